@@ -75,6 +75,7 @@ func init() {
 			{ID: "C08.R5", Title: "in OpInterface/OpRecursive the SeenPtr scan is under the level test and every path from the SeenPtr append reaches recursiveLevel++ or an error return; the End ops decrement and pop", Covers: "cycles are reported and acyclic values never are", Min: 24, Run: c08r5},
 			{ID: "C08.R6", Title: "encode/encodeNoEscape/encodeIndent append the root pointer, and Run appends mapCtx and the interface word, to ctx.KeepRefs", Covers: "callbacks that allocate, collect or grow the stack do not invalidate the traversal", Min: 10, Run: c08r6},
 			{ID: "C08.R7", Title: "recursion rule C06.R2 evaluated from the Marshal entry points on package encoder's compiler", Covers: "recursive types compile without unbounded recursion", Min: 1, Run: c08r7},
+			{ID: "C08.R9", Title: "every function that appends to ctx.recursiveCodes (emits an OpRecursive reference to its struct type) also stores the type's program in ctx.structTypeToCodes", Covers: "recursive types compile in every position (also embedded)", Min: 2, Run: c08r9},
 			{ID: "C08.R8", Title: "no field of Opcode/OpcodeSet/CompiledCode is written outside code.go/compiler.go/opcode.go (QueryCache excepted)", Covers: "the cached program of a type is the same for every later and concurrent encoding", Min: 30, Run: c08r8},
 		},
 	})
@@ -126,6 +127,7 @@ func init() {
 			{ID: "C13.R3", Title: "each vm_color*/helper that replaces an encoder alias of the plain package takes one ColorScheme format, appends its Header once, calls the same encoder function, and appends that format's Footer", Covers: "Colorize output equals the plain output once markers are removed", Min: 12, Run: c13r3},
 			{ID: "C13.R4", Title: "in encodeRunCode/encodeRunIndentCode the callee under each (Debug, Colorize) combination is Run/DebugRun of the package the combination names", Covers: "Debug and Colorize select the matching interpreter", Min: 8, Run: c13r4},
 			{ID: "C13.R5", Title: "every function that takes an encoder RuntimeContext first assigns Flag = 0, then sets NormalizeUTF8Option and HTMLEscapeOption plus only the flag naming the entry", Covers: "Encoder.Encode, MarshalNoEscape, MarshalContext and Marshal start from the same option state", Min: 20, Run: c13r5},
+			{ID: "C08.R3", Title: "frame trailer placement and +3 sizing (shared with C08)", Covers: "MarshalIndent of recursive and interface values keeps its saved indentation", Min: 12, Run: c08r3},
 			{ID: "C13.R6", Title: "every read of Opcode.Indent outside the compiler is combined with ctx.BaseIndent: in one additive expression, assigned into BaseIndent, or passed (possibly through a local) to a parameter that is", Covers: "MarshalIndent indents values reached through interface{} or recursion like Indent(Marshal(v))", Min: 28, Run: c13r6},
 			{ID: "C03.R3", Title: "separator width protocol per VM package (shared with C03)", Covers: "no variant leaves or eats a separator", Min: 60, Run: c03r3},
 		},
